@@ -1,0 +1,37 @@
+//go:build !verif
+
+/*
+Copyright (c) Meta Platforms, Inc. and affiliates.
+Licensed under the Apache License, Version 2.0 (the "License");
+you may not use this file except in compliance with the License.
+You may obtain a copy of the License at
+    http://www.apache.org/licenses/LICENSE-2.0
+Unless required by applicable law or agreed to in writing, software
+distributed under the License is distributed on an "AS IS" BASIS,
+WITHOUT WARRANTIES OR CONDITIONS OF ANY KIND, either express or implied.
+See the License for the specific language governing permissions and
+limitations under the License.
+*/
+
+package verifhook
+
+// Enabled reports whether the hooks are compiled in.
+const Enabled = false
+
+// Yield is a scheduling point. No-op without the verif tag.
+func Yield(string) {}
+
+// YieldLock is a scheduling point placed before l.Lock(). No-op without the verif tag.
+func YieldLock(string, TryLocker) {}
+
+// YieldRLock is a scheduling point placed before l.RLock(). No-op without the verif tag.
+func YieldRLock(string, TryRLocker) {}
+
+// Enter names the calling goroutine as a simulated task. No-op without the verif tag.
+func Enter(string) {}
+
+// Exit marks the calling goroutine's task as finished. No-op without the verif tag.
+func Exit() {}
+
+// Event records an observation. No-op without the verif tag.
+func Event(string, ...interface{}) {}
